@@ -9,6 +9,7 @@ Author : Shunning Jiang
 Date   : Nov 3, 2017
 """
 import math
+import operator
 
 from .bits_import import *
 
@@ -43,7 +44,11 @@ def zext( value, new_width ):
 
 def clog2( N ):
   assert N > 0
-  return int( math.ceil( math.log( N, 2 ) ) )
+  try:
+    # exact for integers of any size (math.log rounds, e.g. at 2**29)
+    return ( operator.index( N ) - 1 ).bit_length()
+  except TypeError:
+    return int( math.ceil( math.log( N, 2 ) ) )
 
 def sext( value, new_width ):
   if isinstance( new_width, int ):
